@@ -217,9 +217,9 @@ Definition dy_guard (ra rb : Reg A) : option err :=
 
 Definition dyadic_lazy (c : nat) (a b : opd A) (v0 : A) (f1 : unit -> A * A) (f2 : unit -> A * A * A)
            (s : St) : res St :=
-  let g := dy_guard (rd s a) (rd s b) in
   let s := alloc_for_two c a b s in
-  match g with Some e => Panic e | None =>
+  (* the checks happen AFTER AllocForTwo: a receiver that is itself an operand has already been resized *)
+  match dy_guard (rd s a) (rd s b) with Some e => Panic e | None =>
   let o := rorder (s c) in
   let n := rn (s c) in
   let s :=
